@@ -109,9 +109,9 @@ def run(chk: Check, model):
         return _paths(t[2]) + _paths(t[3]) if t[0] == "ite" else [t]
     # every way the mixture branch can return goes through the grid routine (no closed-form shortcut for "almost one component")
     all_grid = all(any(x[0] == "call" and T.call_name(x) == "rex.utils.mixture_distribution_quantiles" for x in T.walk(pth)) for pth in _paths(v_m))
-    ok = all_grid and len(mq) == 1 and dict(mq[0][3]).get("dist") == S("self.dist") and mentions(dict(mq[0][3]).get("probs", T.NONE), "q") if mq else False
+    kw = model.bind_call("utils.mixture_distribution_quantiles", mq[0][2], mq[0][3]) if mq else {}
+    ok = all_grid and len(mq) == 1 and kw.get("dist") == S("self.dist") and mentions(kw.get("probs", T.NONE), "q") if mq else False
     if ok:
-        kw = dict(mq[0][3])
         lo, hi = kw.get("grid_min", T.NONE), kw.get("grid_max", T.NONE)
         ok = mentions(lo, "ndtri") and mentions(hi, "ndtri") and mentions(lo, "min") and mentions(hi, "max")
     chk.add("C15.quantile", "mixture: grid routine on the own distribution, grid spanning the components' tails", bool(ok), f"mixture quantile = {T.show(v_m)[:200]}", chk.loc(fi))
@@ -149,19 +149,20 @@ def run(chk: Check, model):
     okf = False
     if cdf_grid[0] == "ite":
         fb = cdf_grid[2]
-        okf = fb[0] == "call" and T.call_name(fb) == "numpy.sum" and dict(fb[3]).get("axis") == T.const(-1) and len(fb[2]) == 1
+        okf = fb[0] == "call" and isinstance(fb[1], tuple) and fb[1][0] == "attr" and fb[1][2] == "sum" and dict(fb[3]).get("axis") == T.const(-1) and not fb[2]
         if okf:
-            prod = fb[2][0]
+            prod = fb[1][1]
             comp = [x for x in T.walk(prod) if x[0] == "call" and T.call_name(x) == "dist.components_distribution.cdf"]
             w = [x for x in T.walk(prod) if x == S("dist.mixture_distribution.probs")]
             okf = len(comp) >= 1 and len(w) >= 1 and prod == T.mul(comp[0], T.mk_index(S("dist.mixture_distribution.probs"), T.NONE))
     chk.add("C15.grid", "cdf = dist.cdf(grid), fallback sum_k w_k cdf_k(grid) over the last axis", bool(ok and okf), f"cdf grid = {T.show(cdf_grid)[:260]}", chk.loc(fi))
     if clo[0] == "closure":
         q1 = ev.invoke(clo, [S("c")], r.frame)
-        ok = q1[0] == "index" and q1[1] == G and q1[2][0] == "call" and T.call_name(q1[2]) == "numpy.argmax" and dict(q1[2][3]).get("axis") == T.ONE
+        am = q1[2] if q1[0] == "index" else T.NONE
+        ok = q1[0] == "index" and q1[1] == G and am[0] == "call" and isinstance(am[1], tuple) and am[1][0] == "attr" and am[1][2] == "argmax" and dict(am[3]).get("axis") == T.ONE
         cmpok, P = False, T.NONE
         if ok:
-            c = q1[2][2][0]
+            c = am[1][1]
             if c[0] == "call" and T.call_name(c) in ("numpy.greater", "numpy.less") and len(c[2]) == 2:
                 a_, b_ = c[2] if T.call_name(c) == "numpy.greater" else (c[2][1], c[2][0])
                 cmpok, P = a_ == S("c"), b_
@@ -186,7 +187,7 @@ def run(chk: Check, model):
     want_hi = [x for x in T.walk(gc) if x[0] == "call" and T.call_name(x) == "max" and x[2] == (S("probs"),)]
     uses_cdf = any(x == cdf_grid for x in T.walk(gc)) if cdf_grid != T.NONE else False
     rets = [e for e in r.events if e.kind == "return" and e.func == fi.qualname]
-    ok = ok and bool(want_lo) and bool(want_hi) and uses_cdf and len(rets) == 1 and flow_equiv_not(rets[0].guard, gc)
+    ok = ok and bool(want_lo) and bool(want_hi) and uses_cdf and len(rets) == 1 and flow_equiv_not(_no_exc(rets[0].guard), _no_exc(gc))
     chk.add("C15.grid", "a grid not spanning [min p, max p] raises", bool(ok), f"raise guard = {T.show(gc)[:240]}", chk.loc(fi))
     # ---------------------------------------------------------------- default delay
     for cls in ("Connection", "BaseNode"):
@@ -229,7 +230,7 @@ def run(chk: Check, model):
             "classified deterministic; spread data must not)", chk.loc(fi))
     # the standardisation of the data and _rescale are inverse to each other: the exported parameters are in the units of the data
     STD, MEAN = S("STD"), S("MEAN")
-    canon = {T.mk_call("data.std", []): STD, T.mk_call("jax.numpy.std", [S("data")]): STD, T.mk_call("data.mean", []): MEAN, T.mk_call("jax.numpy.mean", [S("data")]): MEAN}
+    canon = {T.mk_call("data.std", []): STD, T.mk_call("data.mean", []): MEAN}
     norm = T.subst(r.attr("self", "_data_norm"), canon)
     for c in [x[1] for x in T.walk(norm) if x[0] == "ite"]:
         norm = T.assume(norm, c, False) if T.assume(norm, c, False) != S("data") else T.assume(norm, c, True)
